@@ -365,13 +365,22 @@ def _b_create(B, fam, ctx):
     return reactivex.create(B.fn("subscribe", sub))
 
 
+def _b_group_join_direct(B, fam, ctx):
+    """group_join whose windows are subscribed directly by the consumer (the table form consumes them through flat_map)."""
+    left, right = B.src(_spec("std", fam)), B.src(_spec("std", fam))
+    ld = B.inner_factory("left_duration", [_inner(2)])
+    rd = B.inner_factory("right_duration", [_inner(2)])
+    return left.pipe(ops.group_join(right, ld, rd), ops.map(lambda t: t[1]))
+
+
+F("X:group_join#direct", ("left_duration", "right_duration"), build=_b_group_join_direct)
 F("X:publish_value", "mapper", build=_b_publish_value, post=REPEAT)
 F("X:group_by#subject", "subject_mapper", build=_b_group_subject(False))
 F("X:group_by_until#subject", "subject_mapper", build=_b_group_subject(True))
 F("X:min_by#cmp", "comparer", build=_b_extrema_cmp("min_by"))
 F("X:max_by#cmp", "comparer", build=_b_extrema_cmp("max_by"))
 F("R:create", "subscribe", build=_b_create, post=REPEAT, fams=("cold",))
-EXTRA_FORMS = ("X:publish_value", "X:group_by#subject", "X:group_by_until#subject", "X:min_by#cmp", "X:max_by#cmp", "R:create")
+EXTRA_FORMS = ("X:group_join#direct", "X:publish_value", "X:group_by#subject", "X:group_by_until#subject", "X:min_by#cmp", "X:max_by#cmp", "R:create")
 
 # slots of the shared table that are deliberately not judged
 EXCLUDED_SLOTS = {("finally_action", "action")}
@@ -419,6 +428,7 @@ def _build(lab, case, ctx):
             args = form.args(fam)
         tslot = f"{B.opi}.{form.op}.{case['slot']}"
         o = B.build_op(form.op, args)(o)
+    ctx["n_static"] = len(lab.sources)
     if case.get("pre") is not None or case.get("suf"):
         ctx["spy"] = _Spy(lab)
         o = ctx["spy"](o)
@@ -638,13 +648,26 @@ def _run(case):
         later = [
             e
             for e, a in zip(lab.cb_log, lab.cb_action)
-            if e[1] > inj_seq and a != inj_action and not e[2].endswith(AFTER_OK) and not _emitter_open(lab, e[1])
+            if e[1] > inj_seq and a != inj_action and not e[2].endswith(AFTER_OK) and not _emitter_open(lab, e[1], e[0], strict=not embedded)
         ]
         if later:
             return FAIL(f"callback-after-failure|{label}", f"{later[:3]}; {detail}", classes=cls)
         opened = lab.open_subscriptions()
         if opened:
             return FAIL(f"subscription-leak|{label}", f"open source subscriptions at the end: {opened}; {detail}", classes=cls)
+        if not embedded and term is not None:
+            # enumerated forms: the sources the pipeline was built over (main and auxiliary ones, not the inner sequences a
+            # callback returns) must be released within the virtual instant in which the subscriber got the on_error, also
+            # when window/group subscribers are attached (they are terminated by the same failure)
+            late = [
+                (src.name, i, ticks)
+                for src in lab.sources[: ctx["n_static"]]
+                for i, (ticks, seqs) in enumerate(zip(src.subs, src.sub_seq))
+                if seqs[0] < inj_seq and ticks[1] is not None and ticks[1] > term[0]
+            ]
+            if late:
+                return FAIL(f"late-release|{label}", f"source subscriptions [name, index, [subscribed, unsubscribed]] released only after the failure instant {term[0]}: {late}; {detail}", classes=cls)
+            cls.append("release-instant-judged")
         leaked = [i for i, r in enumerate(ctx.get("resources", [])) if not r.closed]
         if leaked:
             return FAIL(f"resource-leak|{label}", f"`using` resources not disposed: {leaked}; {detail}", classes=cls)
@@ -664,13 +687,16 @@ def _sync_in_progress(lab, seq):
     return False
 
 
-def _emitter_open(lab, seq):
-    """Some logged source subscription is open at sequence point seq (its emitter could not be stopped yet, e.g. a source
-    emitting synchronously inside subscribe() before its disposable exists): callbacks it drives are not judged."""
+def _emitter_open(lab, seq, tick, strict):
+    """Some logged source subscription is open at sequence point seq whose emitter could not be stopped yet: callbacks it
+    drives are not judged.  strict (enumerated forms): only a synchronous source still emitting inside its own subscribe() at
+    that tick qualifies (its disposable does not exist yet); a subscription that is merely still open does not -- that is the
+    late release the property excludes.  Embedded cases keep the lenient reading (any open subscription)."""
     for s in lab.sources:
-        for a, b in s.sub_seq:
+        for (a, b), (ta, _tb) in zip(s.sub_seq, s.subs):
             if a < seq and (b is None or b > seq):
-                return True
+                if not strict or (getattr(s, "sync", False) and ta == tick):
+                    return True
     return False
 
 
